@@ -215,6 +215,23 @@ static void case_xofpad(uint64_t sub, int a)
     vf_eq("C03", a ? "xofa:pad" : "xof:pad", "absorb, pad, absorb vs absorbing zeroes to the rate boundary", out, exp, outlen, "\"l1\":%zu,\"l2\":%zu,\"outlen\":%zu", l1, l2, outlen);
     vf_out(out, outlen);
     vf_distinct("%s-pad|l1mod%zu|l2%s", a ? "xofa" : "xof", l1 % 8, l2 ? "y" : "0");
+    /* pad and absorb after squeezing: the value is library-defined (no reference is imposed); the call sequence is part of
+     * the cross-configuration transcript (C09) and must not trip the acquire/release checker */
+    {
+        size_t n1 = rng_below(R, 20), n2 = 1 + rng_below(R, 30);
+        uint8_t *o2 = (uint8_t *)galloc(n1 + n2, 1);
+        xof_init_cfg(a, st, &c, 0);
+        xof_absorb(a, st, in, l1);
+        xof_squeeze(a, st, o2, n1);
+        if (!a) ascon_xof_pad((ascon_xof_state_t *)st); else ascon_xofa_pad((ascon_xofa_state_t *)st);
+        xof_absorb(a, st, in, l2 < total ? l2 : 0);
+        if (rng_below(R, 2)) { if (!a) ascon_xof_pad((ascon_xof_state_t *)st); else ascon_xofa_pad((ascon_xofa_state_t *)st); }
+        xof_squeeze(a, st, o2 + n1, n2);
+        xof_free(a, st);
+        vf_out(o2, n1 + n2);
+        vf_count("pad_after_squeeze", 1);
+        gfree(o2);
+    }
     free(in); free(exp); gfree(out); gfree(st);
 }
 
